@@ -720,7 +720,9 @@ def gen_wheel(tier, r):
             low = (p * p) // 30 * 30 - 30 * r.choice([0, 1, 2, 10])
             add("square", M, p, max(0, low), r.choice([UMAX, p * p, p * p + 1, p * p - 1, p * p + 12 * p]))
     # large primes (EratBig territory) and the top of the range: wrap guards
-    bigs = [oracle.next_prime_ge(x) for x in [2**16 + 1, 10**6, 2**31, 2**32 - 300, 2**32 + 15, 3 * 10**9, 4294967291 - 1000]]
+    # sieving primes are <= isqrt(stop) < 2^32 (PrimeGenerator::sieveSegment adds primes <= isqrt(segmentHigh)):
+    # a prime > 2^32 is outside the function's domain (p*p wraps; the real code never passes one)
+    bigs = [oracle.next_prime_ge(x) for x in [2**16 + 1, 10**6, 2**31, 2**32 - 300, 3 * 10**9, 4294967291 - 1000, 4294967291]]
     for p in bigs:
         for M in (30, 210):
             for _ in range(3 if q else 20):
